@@ -13,6 +13,10 @@ import Mathlib.Tactic.Ring
 import BB.Proofs.DictEq
 import BB.Model.Sequence
 import BB.Proofs.ForgeSeq
+import BB.Proofs.G4Seq
+import BB.Proofs.G4Frame
+import BB.Proofs.G4Schema
+import BB.Proofs.G4Example
 
 namespace BB.C18
 open BB BB.Sequence
@@ -255,5 +259,328 @@ theorem posDuration_spec (s : Sequence) (pos : Int) (en : Entry) (q : SeqSet) (d
     (hq : Dict.get? s.sequencing pos = some q) (hd : en.duration = .ok d) :
     posDuration s (pos, en) = .ok ((q.nrep : Rat) * d) := by
   simp [posDuration, hq, hd, Except.map]
+
+/-! ### the stand-alone forge of a subsequence succeeds whenever the parent's does -/
+
+/-- **parent forge ok ⇒ stand-alone forge ok**: whenever `forge` succeeds on a sequence that holds
+    a subsequence at position `i+1`, forging that subsequence on its own — as a sequence under the
+    parent's AWG settings, with the same options — succeeds as well -/
+theorem forge_subsequence_standalone_ok (s : Sequence) (d f t : Bool) (out : List (Nat × ForgedPos))
+    (h : s.forge d f t = .ok out) (i : Nat) (hi : i < out.length) (sub : SubSeq)
+    (he : Dict.get? s.data ((i + 1 : Nat) : Int) = some (.sub sub)) :
+    ∃ out', (asSequence s sub).forge d f t = .ok out' := by
+  obtain ⟨hc, _⟩ := g4_forge_ok_consistent s d f t out h
+  obtain ⟨hsr, hsc, e1, he1⟩ := g4_sub_consistent s hc _ sub he
+  obtain ⟨en, hen, hpos⟩ := (forge_pos s d f t out h).2 i hi
+  rw [he] at hen
+  cases hen
+  obtain ⟨_, _, _, _, _, hlen, _⟩ := forgePos_sub s d f t (i + 1) sub _ hpos
+  have hcs := asSequence_consistent s sub hsr hsc
+  -- the result: one element position per content entry
+  refine ⟨(out[i]).2.content.map (fun c =>
+    (c.1, ({ sequencing := c.2.2.getD default, isSub := false, content := [(1, c.2.1, none)] } : ForgedPos))), ?_⟩
+  apply g4_forge_intro _ _ _ _ _ hcs
+  · unfold Sequence.channels
+    simp only [hcs, bind, Except.bind, Bool.not_true, Bool.false_eq_true, if_false]
+    have : Dict.get? (asSequence s sub).data 1 = some (.el e1) := by
+      simp only [asSequence]
+      rw [get_map_el_g4, he1]; rfl
+    rw [this]
+    exact ⟨_, rfl⟩
+  · simp [asSequence, hlen]
+  · intro j hj
+    have hj' : j < (out[i]).2.content.length := by simpa using hj
+    obtain ⟨e, c, q2, hge, hcj, hst⟩ := sub_content_standalone s d f t (i + 1) sub _ hpos j hj'
+    refine ⟨.el e, ?_, ?_⟩
+    · simp only [asSequence]
+      rw [get_map_el_g4, hge]; rfl
+    · rw [hst]
+      simp only [List.getElem_map, hcj, Option.getD_some]
+
+/-- **a subsequence forges exactly like the same subsequence forged on its own** (no hypothesis
+    on the stand-alone forge): the stand-alone forge under the parent's settings succeeds, and
+    content entry `j` of the subsequence position is (position `j+1`, the arrays of the
+    stand-alone result's position `j+1`, its sequencing entry) -/
+theorem forge_subsequence_is_standalone (s : Sequence) (d f t : Bool) (out : List (Nat × ForgedPos))
+    (h : s.forge d f t = .ok out) (i : Nat) (hi : i < out.length) (sub : SubSeq)
+    (he : Dict.get? s.data ((i + 1 : Nat) : Int) = some (.sub sub)) :
+    ∃ out', (asSequence s sub).forge d f t = .ok out' ∧
+      (out[i]).2.content.length = out'.length ∧
+      ∀ j (hj : j < (out[i]).2.content.length) (hj' : j < out'.length), ∃ c q2,
+        (out[i]).2.content[j] = (j + 1, c, some q2) ∧
+        out'[j] = (j + 1, { sequencing := q2, isSub := false, content := [(1, c, none)] }) := by
+  obtain ⟨out', h'⟩ := forge_subsequence_standalone_ok s d f t out h i hi sub he
+  exact ⟨out', h', forge_subsequence_standalone s d f t out h i hi sub he out' h'⟩
+
+/-! ### flags and the time option -/
+
+/-- **flags survive delays and filters; the time axis is there exactly when requested** (element
+    position): forged channel `k` is the stored element's `k`-th channel, carries exactly the flags
+    stored for that channel — whether or not delays and filters are applied —, and carries the
+    time axis (and segment durations) iff `includetime` was requested -/
+theorem forge_element_flags_time (s : Sequence) (d f t : Bool) (out : List (Nat × ForgedPos)) (h : s.forge d f t = .ok out)
+    (i : Nat) (hi : i < out.length) (e : Element) (he : Dict.get? s.data ((i + 1 : Nat) : Int) = some (.el e)) :
+    ∃ c sq, out[i] = (i + 1, { sequencing := sq, isSub := false, content := [(1, c, none)] }) ∧
+      c.length = e.chans.length ∧
+      ∀ k (hk : k < e.chans.length) (hc : k < c.length),
+        (c[k]).1 = (e.chans[k]).1 ∧ chFlags (c[k]).2 = (e.chans[k]).2.flags ∧ (c[k]).2.out.timeAsRequested t := by
+  obtain ⟨e', arr, c, sq, h1, h2, h3, _, h5⟩ := forge_element_position s d f t out h i hi e he
+  obtain ⟨hl, hall⟩ := element_output_frame s d f t e e' arr c h1 h2 h3
+  refine ⟨c, sq, h5, hl, fun k hk hc => ?_⟩
+  obtain ⟨a1, a2, a3, _⟩ := hall k hk hc
+  refine ⟨a1, ?_, a3⟩
+  rw [← a2]
+  unfold chFlags Element.ChOut.flags
+  cases (c[k]).2.out <;> rfl
+
+/-- the same inside a subsequence: content entry `j` holds the channels of the subsequence's
+    element `j+1`, each with its stored flags and the time axis as requested -/
+theorem forge_subsequence_flags_time (s : Sequence) (d f t : Bool) (out : List (Nat × ForgedPos)) (h : s.forge d f t = .ok out)
+    (i : Nat) (hi : i < out.length) (sub : SubSeq) (he : Dict.get? s.data ((i + 1 : Nat) : Int) = some (.sub sub))
+    (j : Nat) (hj : j < (out[i]).2.content.length) :
+    ∃ e c q2, Dict.get? sub.data ((j + 1 : Nat) : Int) = some e ∧ (out[i]).2.content[j] = (j + 1, c, some q2) ∧
+      c.length = e.chans.length ∧
+      ∀ k (hk : k < e.chans.length) (hc : k < c.length),
+        (c[k]).1 = (e.chans[k]).1 ∧ chFlags (c[k]).2 = (e.chans[k]).2.flags ∧ (c[k]).2.out.timeAsRequested t := by
+  obtain ⟨en, hen, hpos⟩ := (forge_pos s d f t out h).2 i hi
+  rw [he] at hen
+  cases hen
+  obtain ⟨_, _, _, _, _, _, hall⟩ := forgePos_sub s d f t (i + 1) sub _ hpos
+  obtain ⟨e, e', arr, c, q2, hge, h1, h2, h3, _, hcj⟩ := hall j hj
+  obtain ⟨hl, hfr⟩ := element_output_frame s d f t e e' arr c h1 h2 h3
+  refine ⟨e, c, q2, hge, hcj, hl, fun k hk hc => ?_⟩
+  obtain ⟨a1, a2, a3, _⟩ := hfr k hk hc
+  refine ⟨a1, ?_, a3⟩
+  rw [← a2]
+  unfold chFlags Element.ChOut.flags
+  cases (c[k]).2.out <;> rfl
+
+/-! ### duration of a subsequence, and of a position holding one -/
+
+/-- what one position of a subsequence contributes to its duration -/
+def subPosDuration (sub : SubSeq) (x : Int × Element) : Except Err Rat :=
+  match Dict.get? sub.sequencing x.1 with
+  | none => .error .key
+  | some q => x.2.duration.map (fun d => (q.nrep : Rat) * d)
+
+/-- the duration of a subsequence is the sum over its positions of repetitions × element duration -/
+theorem subseq_duration_sum (sub : SubSeq) (vals : List Rat) (h : sub.data.mapM (subPosDuration sub) = .ok vals) :
+    sub.duration = .ok vals.sum := by
+  unfold SubSeq.duration
+  rw [foldlM_add_rat (subPosDuration sub) sub.data 0 vals h]
+  · simp
+  · rintro a ⟨pos, e⟩
+    simp only [subPosDuration]
+    cases Dict.get? sub.sequencing pos with
+    | none => rfl
+    | some q => cases e.duration <;> rfl
+
+/-- **duration is weighted by repetitions at both levels**: a position holding a subsequence
+    contributes (its own repetitions) × Σ over the subsequence's positions of (that position's
+    repetitions × element duration) -/
+theorem posDuration_subsequence (s : Sequence) (pos : Int) (sub : SubSeq) (q : SeqSet) (vals : List Rat)
+    (hq : Dict.get? s.sequencing pos = some q) (h : sub.data.mapM (subPosDuration sub) = .ok vals) :
+    posDuration s (pos, .sub sub) = .ok ((q.nrep : Rat) * vals.sum) :=
+  posDuration_spec s pos (.sub sub) q vals.sum hq (subseq_duration_sum sub vals h)
+
+/-- an element position contributes repetitions × element duration -/
+theorem posDuration_element (s : Sequence) (pos : Int) (e : Element) (q : SeqSet) (m : Val × Rat)
+    (hq : Dict.get? s.sequencing pos = some q) (h : e.validate = .ok m) :
+    posDuration s (pos, .el e) = .ok ((q.nrep : Rat) * m.2) :=
+  posDuration_spec s pos (.el e) q m.2 hq (by simp [Entry.duration, Element.duration, h, Except.map])
+
+/-! ### the result validates against the published schema -/
+
+/-- every raw-array channel anywhere in the sequence holds at least one array -/
+def RawNonempty (s : Sequence) : Prop :=
+  (∀ p e, Dict.get? s.data p = some (.el e) → FsSchema.RawNonempty e) ∧
+  (∀ p sub q e, Dict.get? s.data p = some (.sub sub) → Dict.get? sub.data q = some e → FsSchema.RawNonempty e)
+
+/-- **`forge ok ⇒ schemaValid`**: whatever `forge` returns — for any option combination, with
+    subsequences, flags, delays and filters — validates against `fs_schema`
+    (src/broadbean/sequence.py lines 24-37), provided no raw-array channel is an empty dictionary
+    (true of everything `addArray` builds, see `addArray_raw_nonempty`) -/
+theorem forge_schema_valid (s : Sequence) (d f t : Bool) (out : List (Nat × ForgedPos)) (h : s.forge d f t = .ok out)
+    (hraw : RawNonempty s) : FsSchema.schemaValid out := by
+  obtain ⟨hc, c0, hch⟩ := g4_forge_ok_consistent s d f t out h
+  obtain ⟨hlen, hpos⟩ := forge_pos s d f t out h
+  unfold FsSchema.schemaValid FsSchema.fsSchema FsSchema.forgeJ
+  apply FsSchema.dictOk_single _ _ rfl
+  · intro kv hkv
+    simp only [List.mem_map] at hkv
+    obtain ⟨x, hx, rfl⟩ := hkv
+    refine ⟨rfl, ?_⟩
+    obtain ⟨i, hi, rfl⟩ := List.getElem_of_mem hx
+    obtain ⟨en, hen, hp⟩ := hpos i hi
+    apply FsSchema.posJ_ok
+    cases en with
+    | el e =>
+      obtain ⟨e', arr, c, sq, h1, h2, h3, _, h5⟩ := forgePos_element s d f t (i + 1) e _ hp
+      obtain ⟨m, hm⟩ := g4_consistent_element_validates s hc _ e hen
+      rw [h5]
+      unfold FsSchema.contentSch FsSchema.contentJ
+      apply FsSchema.dictOk_single _ _ rfl
+      · intro kv hkv
+        simp only [List.map_cons, List.map_nil, List.mem_singleton] at hkv
+        subst hkv
+        refine ⟨rfl, FsSchema.contentEntryJ_ok _ ?_⟩
+        exact FsSchema.dataJ_ok s d f t e e' arr c h1 h2 h3 (g4_validate_chans_ne_nil e m hm) (hraw.1 _ e hen)
+      · simp
+    | sub sub =>
+      obtain ⟨_, hsc, e1, he1⟩ := g4_sub_consistent s hc _ sub hen
+      obtain ⟨_, _, _, _, _, hl, hall⟩ := forgePos_sub s d f t (i + 1) sub _ hp
+      unfold FsSchema.contentSch FsSchema.contentJ
+      apply FsSchema.dictOk_single _ _ rfl
+      · intro kv hkv
+        simp only [List.mem_map] at hkv
+        obtain ⟨y, hy, rfl⟩ := hkv
+        refine ⟨rfl, FsSchema.contentEntryJ_ok _ ?_⟩
+        obtain ⟨j, hj, rfl⟩ := List.getElem_of_mem hy
+        obtain ⟨e, e', arr, c, q2, hge, h1, h2, h3, _, hcj⟩ := hall j hj
+        obtain ⟨m, hm⟩ := g4_subseq_element_validates sub hsc _ e hge
+        rw [hcj]
+        exact FsSchema.dataJ_ok s d f t e e' arr c h1 h2 h3 (g4_validate_chans_ne_nil e m hm) (hraw.2 _ sub _ e hen hge)
+      · intro h0
+        have h1 : (out[i]).2.content.length = 0 := by simpa using congrArg List.length h0
+        have : sub.data = [] := List.eq_nil_of_length_eq_zero (by omega)
+        rw [this] at he1
+        simp [Dict.get?] at he1
+  · intro h0
+    have h1 : out.length = 0 := by simpa using congrArg List.length h0
+    have : s.data = [] := List.eq_nil_of_length_eq_zero (by omega)
+    unfold Sequence.channels at hch
+    simp only [hc, bind, Except.bind, Bool.not_true, Bool.false_eq_true, if_false, this, Dict.get?,
+      List.find?_nil, Option.map_none] at hch
+    simp [throw, throwThe, MonadExceptOf.throw] at hch
+
+/-- helper (C18, schema clause): an entry of `d[k] = v` is the new pair or an old entry -/
+theorem g4_mem_upsert_cases {κ α : Type} [DecidableEq κ] (d : Dict κ α) (k : κ) (v : α) (x : κ × α)
+    (h : x ∈ Dict.upsert d k v) : x = (k, v) ∨ x ∈ d := by
+  induction d with
+  | nil => simp only [Dict.upsert, List.mem_singleton] at h; exact Or.inl h
+  | cons y ys ih =>
+    obtain ⟨k', v'⟩ := y
+    unfold Dict.upsert at h
+    split at h
+    · simp only [List.mem_cons] at h
+      rcases h with h | h
+      · exact Or.inl h
+      · exact Or.inr (by simp [h])
+    · simp only [List.mem_cons] at h
+      rcases h with h | h
+      · exact Or.inr (by simp [h])
+      · rcases ih h with h | h
+        · exact Or.inl h
+        · exact Or.inr (by simp [h])
+
+/-- `addArray` always stores 'wfm', so what it builds meets the guard of `forge_schema_valid` -/
+theorem addArray_raw_nonempty (e : Element) (ch : Chan) (wfm : List Rat) (sr : Val) (kw : Dict String (List Rat))
+    (he : FsSchema.RawNonempty e) (hok : (e.addArray ch wfm sr kw).err = none) :
+    FsSchema.RawNonempty (e.addArray ch wfm sr kw).st := by
+  unfold Element.addArray at hok ⊢
+  split at hok
+  · rename_i hall
+    simp only [hall, if_true]
+    intro x hx a sv hd
+    rcases g4_mem_upsert_cases _ _ _ _ hx with hm | hm
+    · rw [hm] at hd
+      simp only [ChData.arr.injEq] at hd
+      rw [← hd.1]
+      exact FsSchema.g4_upsert_ne_nil _ _ _
+    · exact he x hm a sv hd
+  · simp at hok
+
+/-- ... and so do `addBluePrint` and the empty element -/
+theorem addBluePrint_raw_nonempty (e : Element) (ch : Chan) (b : BP) (he : FsSchema.RawNonempty e) :
+    FsSchema.RawNonempty (e.addBluePrint ch b).st := by
+  unfold Element.addBluePrint
+  split
+  · exact he
+  · intro x hx a sv hd
+    rcases g4_mem_upsert_cases _ _ _ _ hx with hm | hm
+    · rw [hm] at hd; cases hd
+    · exact he x hm a sv hd
+
+/-- (C18, schema clause) the empty element meets the guard of `forge_schema_valid` -/
+theorem empty_raw_nonempty : FsSchema.RawNonempty {} := by
+  intro x hx; cases hx
+
+/-! ### non-vacuity: a sequence holding an element and a two-position subsequence; a blueprint
+    channel with flags and a delay of two samples, a raw-array channel with a filter -/
+
+open BB.G4Ex
+
+/-- forging a sequence that contains a subsequence: positions, types, repetitions, number of
+    content entries -/
+example : (exSeq.forge true true false).toOption.map
+      (fun out => out.map (fun p => (p.1, p.2.isSub, p.2.sequencing.nrep, p.2.content.length))) =
+    some [(1, false, 1, 1), (2, true, 3, 2)] := by
+  decide +kernel
+
+/-- the content of the subsequence position: inner positions with their own repetitions -/
+example : (exSeq.forge true true false).toOption.map
+      (fun out => (out.drop 1).flatMap (fun p => p.2.content.map (fun c => (c.1, c.2.2.map (·.nrep))))) =
+    some [(1, some 2), (2, some 4)] := by
+  decide +kernel
+
+/-- ... and per channel (id, filter attached?, flags): flags survive the delay and the filter -/
+example : (exSeq.forge true true false).toOption.map
+      (fun out => (out.drop 1).flatMap (fun p => p.2.content.flatMap (fun c =>
+        c.2.1.map (fun x => (x.1, x.2.filt.isSome, chFlags x.2))))) =
+    some [(.int 1, false, some [1, 0, 0, 1]), (.str "A", true, none),
+          (.int 1, false, some [1, 0, 0, 1]), (.str "A", true, none)] := by
+  decide +kernel
+
+/-- the hypotheses of `forge_subsequence_standalone_ok` / `forge_subsequence_is_standalone` /
+    `forge_subsequence_flags_time` hold for position 2 of the example -/
+example : (exSeq.forge true true false).toOption.isSome = true ∧
+    Dict.get? exSeq.data ((1 + 1 : Nat) : Int) = some (.sub exSub) := by
+  constructor
+  · decide +kernel
+  · rfl
+
+/-- ... and the stand-alone forge indeed succeeds, with two element positions -/
+example : ((asSequence exSeq exSub).forge true true false).toOption.map (fun out => out.map (fun p => (p.1, p.2.isSub))) =
+    some [(1, false), (2, false)] := by
+  decide +kernel
+
+/-- the example validates against the schema (all options on, time axis included) -/
+example : (exSeq.forge true true true).toOption.map (fun out => decide (FsSchema.schemaValid out)) = some true := by
+  decide +kernel
+
+/-- the guard of `forge_schema_valid` holds for the example -/
+example : RawNonempty exSeq := by
+  have hel : FsSchema.RawNonempty exEl := by
+    intro x hx a sv hd
+    simp only [exEl, List.mem_cons, List.not_mem_nil, or_false] at hx
+    rcases hx with rfl | rfl
+    · cases hd
+    · simp only [ChData.arr.injEq] at hd
+      rw [← hd.1]; simp
+  constructor
+  · intro p e hp
+    have := Dict.mem_of_get?_eq_some p _ hp
+    simp only [exSeq, List.mem_cons, Prod.mk.injEq, List.not_mem_nil, or_false, reduceCtorEq, and_false] at this
+    obtain ⟨_, h⟩ := this
+    cases h
+    exact hel
+  · intro p sub q e hp hq
+    have := Dict.mem_of_get?_eq_some p _ hp
+    simp only [exSeq, List.mem_cons, Prod.mk.injEq, List.not_mem_nil, or_false, reduceCtorEq, and_false, false_or] at this
+    obtain ⟨_, h⟩ := this
+    cases h
+    have := Dict.mem_of_get?_eq_some q _ hq
+    simp only [exSub, List.mem_cons, Prod.mk.injEq, List.not_mem_nil, or_false] at this
+    rcases this with ⟨_, rfl⟩ | ⟨_, rfl⟩ <;> exact hel
+
+/-- a dictionary the schema refuses: a position without content entries (`int` is a required key) -/
+example : FsSchema.fsSchema (FsSchema.forgeJ [(1, { sequencing := ⟨0, 1, 0, 0, 0⟩, isSub := false, content := [] })]) = false := by
+  decide +kernel
+
+/-- duration with a subsequence: 1·1 + 3·(2·1 + 4·1) seconds; points: 10 + (10 + 10) -/
+example : exSeq.duration = .ok (1 * 1 + 3 * (2 * 1 + 4 * 1)) := by decide +kernel
+example : exSeq.points = .ok 30 := by decide +kernel
+example : exSub.data.mapM (subPosDuration exSub) = .ok [2 * 1, 4 * 1] := by decide +kernel
+example : Dict.get? exSeq.sequencing 2 = some ⟨0, 3, 0, 0, 1⟩ := by decide
 
 end BB.C18
